@@ -160,7 +160,7 @@ impl ToolRunner {
         let started_at = Instant::now();
 
         let mut events = Vec::new();
-        self.emit_checkpoint_events(session_id, seq, &invocation, &mut events);
+        let checkpointed = self.emit_checkpoint_events(session_id, seq, &invocation, &mut events);
         events.push(self.emit(
             session_id,
             seq,
@@ -171,6 +171,18 @@ impl ToolRunner {
                 timeout_ms: invocation.timeout_ms,
             },
         ));
+        if !checkpointed {
+            // The edit could not be undone: a file-editing tool never runs without its checkpoint.
+            events.push(self.emit(
+                session_id,
+                seq,
+                EventKind::ToolFailed {
+                    tool_id,
+                    error: "automatic checkpoint failed; tool not run".to_string(),
+                },
+            ));
+            return events;
+        }
 
         let handler = match self.registry.get(&invocation.name) {
             Some(handler) => handler,
@@ -344,14 +356,15 @@ impl ToolRunner {
         seq: &mut u64,
         invocation: &ToolInvocation,
         events: &mut Vec<Event>,
-    ) {
+    ) -> bool {
         let Some(hook) = &self.checkpoint_hook else {
-            return;
+            return true;
         };
         let files = match files_for_invocation(invocation) {
             Ok(Some(files)) => files,
-            Ok(None) => return,
+            Ok(None) => return true,
             Err(error) => {
+                // Arguments the tool itself cannot parse either: it cannot change a file.
                 events.push(self.emit(
                     session_id,
                     seq,
@@ -360,7 +373,7 @@ impl ToolRunner {
                         error,
                     },
                 ));
-                return;
+                return true;
             }
         };
         let label = format!("auto:{}", invocation.name);
@@ -373,26 +386,32 @@ impl ToolRunner {
         };
 
         match hook.create(request) {
-            Ok(record) => events.push(self.emit(
-                session_id,
-                seq,
-                EventKind::CheckpointCreated {
-                    checkpoint_id: record.id,
-                    label: record.label,
-                    created_at_ms: record.created_at_ms,
-                    files: record.files,
-                    auto: true,
-                    tool_name: Some(invocation.name.clone()),
-                },
-            )),
-            Err(error) => events.push(self.emit(
-                session_id,
-                seq,
-                EventKind::CheckpointFailed {
-                    action: CheckpointAction::Create,
-                    error,
-                },
-            )),
+            Ok(record) => {
+                events.push(self.emit(
+                    session_id,
+                    seq,
+                    EventKind::CheckpointCreated {
+                        checkpoint_id: record.id,
+                        label: record.label,
+                        created_at_ms: record.created_at_ms,
+                        files: record.files,
+                        auto: true,
+                        tool_name: Some(invocation.name.clone()),
+                    },
+                ));
+                true
+            }
+            Err(error) => {
+                events.push(self.emit(
+                    session_id,
+                    seq,
+                    EventKind::CheckpointFailed {
+                        action: CheckpointAction::Create,
+                        error,
+                    },
+                ));
+                false
+            }
         }
     }
 
